@@ -1,1 +1,2 @@
 import DinoProofs.Properties.C13
+import DinoProofs.Properties.C03
